@@ -122,7 +122,9 @@ namespace tt {
     std::string in;   // kinds of the inputs
     char out;         // kind of the output
     std::string hyp;  // Coq hypothesis over the inputs a b c ... ("" if none), e.g. "det2 (full_t N a) <> 0"
-    int tier;         // tier from which the obligations are generated: 0 quick and thorough, 1 thorough only, 9 never traced
+    int tier;         // tier from which the obligations are generated: 0 quick and thorough, 1 thorough only, 9 never traced,
+                      // 8 "double only": code that cannot be instantiated with Sym (iterative solvers, pivoting): the real double
+                      // code is executed on the seeded inputs and compared with the numerical specification, nothing is traced
     bool proof;       // false: "execution only" -- traced, compared with the double instantiation and with the numerical
                       // specification on the seeded inputs, but NO Coq obligation is generated (listed as not proved)
     std::function<V<Sym>(const In<Sym>&)> fs;
@@ -252,6 +254,26 @@ namespace tt {
         if (op.tier >= 9) continue;
         const bool prove = op.proof && op.tier <= tier;
         if (opidx % nparts != part) continue;
+        if (op.tier == 8) {
+          std::printf("EXEC-DOUBLE-ONLY %s_%d\n", op.name.c_str(), op.N);
+          for (int s = 0; s < ns; ++s) {
+            auto din = num_inputs(op, rng, s % 3);
+            if (op.prep) op.prep(din, rng, s);
+            std::printf("AGREE %s_%d IN", op.name.c_str(), op.N);
+            for (auto& v : din) {
+              std::printf(" |");
+              for (double x : v) std::printf(" %.17g", x);
+            }
+            std::printf(" OUT");
+            try {
+              for (double x : op.fd(din)) std::printf(" %.17g", x);
+            } catch (std::exception& e) {
+              std::printf(" nan");
+            }
+            std::printf("\n");
+          }
+          continue;
+        }
         const auto in = sym_inputs(op);
         V<Sym> outs;
         try {
